@@ -138,6 +138,19 @@ theorem backupRun_safe (r0 : Repo) (jobs : List PackJob) (sched : List (Nat × B
   (backup_prefix_safe r0 _
     (Restic.Proofs.Writer.backupRun_accepted r0 jobs sched fid flushFails sid sn snapFails hplan) hc k).2.2
 
+/-- a failed attempt of the retry layer — the file was stored, the error was reported, the retry
+    layer removed the file again — leaves the repository exactly as it was (the correspondence
+    stream drops such save/remove pairs from the recorded trace) -/
+theorem failed_attempt_noop (r : Repo) (p : Nat) (bs : List Blob) (hfresh : ∀ x ∈ r.packs, x.1 ≠ p) :
+    apply (apply r (.savePack p bs)) (.removePack p) = r := by
+  cases r with
+  | mk packs indexes snaps =>
+    simp only [apply, List.filter_cons, bne_self_eq_false, Bool.false_eq_true, if_false]
+    congr
+    rw [List.filter_eq_self]
+    intro x hx
+    simpa using hfresh x hx
+
 /-! ### T1: call orders the writer transcription relies on (regenerated on every run) -/
 
 def idx (l : List String) (c : String) : Nat := l.idxOf c
